@@ -1,5 +1,28 @@
-(* STUB: Impl model of facs.rs -- to be written *)
-From Coq Require Import NArith List.
+(* Impl model of facs.rs *)
+From Coq Require Import NArith List Bool.
 From ACPI Require Import Lib.Bytes Lib.Sx Lib.Machine Impl.Checksum Impl.Table Impl.Fields Impl.Run.
 Import ListNotations.
-Definition facs_case (md : mode) (c : sx) : list ev := [EvPanic].
+Open Scope N_scope.
+
+(* struct FACS (packed, 64 bytes), fields in declaration order:
+   0 signature[4] ... 4 length 5 hardware_signature 6 waking 7 lock 8 flags 9 x_waking 10 version 11.. _reserved1[3]
+   14 ospm_flags 15.. _reserved2[24] *)
+Definition facs_new_flds : flds :=
+  fbytes [70; 65; 67; 83]                               (* "FACS" *)
+  ++ [F 4 64;                                           (* length = size_of::<FACS>() as u32 *)
+      F 4 0; F 4 0; F 4 0; F 4 0; F 8 0; F 1 1]         (* hardware_signature waking lock flags x_waking version *)
+  ++ fbytes [0; 0; 0]
+  ++ [F 4 0]
+  ++ fbytes (repeatN 0 24).
+
+(* FACS::new() *)
+Definition facs_new (c : sx) : option flds :=
+  match c with
+  | SL [] => Some facs_new_flds
+  | _ => None
+  end.
+
+Definition facs_step (md : mode) (s : flds) (o : sx) : option (flds * list ev) := None.
+
+Definition facs_case (md : mode) (c : sx) : list ev :=
+  run_history (fun s => Some (ser_flds s)) (facs_step md) facs_new c.
